@@ -368,10 +368,24 @@ func (t *tr) clauses(list []ast.Stmt, sw ast.Node) *stmt {
 				return bad("case expression involving the completion callback at " + t.pos(cc))
 			}
 		}
+		// break / fallthrough / goto / continue anywhere in a clause (also nested in an `if`) changes
+		// which statements of the clause run: not interpreted
+		var branch *ast.BranchStmt
 		for _, b := range cc.Body {
-			if br, ok := b.(*ast.BranchStmt); ok && br.Tok == token.FALLTHROUGH {
-				return bad("fallthrough at " + t.pos(br))
-			}
+			ast.Inspect(b, func(x ast.Node) bool {
+				switch y := x.(type) {
+				case *ast.FuncLit:
+					return false
+				case *ast.BranchStmt:
+					if branch == nil {
+						branch = y
+					}
+				}
+				return branch == nil
+			})
+		}
+		if branch != nil {
+			return bad(branch.Tok.String() + " inside a switch clause at " + t.pos(branch))
 		}
 		cs = append(cs, cl{cc.Body, cc.List == nil})
 	}
@@ -481,20 +495,9 @@ func collectBad(s *stmt, out *[]string) {
 	collectBad(s.e, out)
 }
 
-func main() {
-	root := flag.String("root", "/repo", "repository root")
-	dir := flag.String("dir", "node/modules", "directory (below root) holding the shipped modules")
-	out := flag.String("out", "", "Lean file to write")
-	jsonOut := flag.String("json", "", "JSON file to write (default: <out> with .json)")
-	flag.Parse()
-	if *out == "" {
-		fatal("-out is required")
-	}
-	if *jsonOut == "" {
-		*jsonOut = strings.TrimSuffix(*out, ".lean") + ".json"
-	}
-	ov := loadOverlay()
-	base := filepath.Join(*root, *dir)
+// collect translates every Start/Stop method of the modules below root/dir.
+func collect(root, dir string, ov map[string]string) []*module {
+	base := filepath.Join(root, dir)
 	files := map[string]string{} // logical path -> path to read
 	err := filepath.Walk(base, func(p string, info os.FileInfo, err error) error {
 		if err != nil {
@@ -534,7 +537,7 @@ func main() {
 		if err != nil {
 			fatal("cannot parse %s: %v", logical, err)
 		}
-		rel, _ := filepath.Rel(*root, logical)
+		rel, _ := filepath.Rel(root, logical)
 		for _, d := range f.Decls {
 			fd, ok := d.(*ast.FuncDecl)
 			if !ok || fd.Recv == nil || len(fd.Recv.List) != 1 || (fd.Name.Name != "Start" && fd.Name.Name != "Stop") {
@@ -586,6 +589,22 @@ func main() {
 		}
 	}
 	sort.SliceStable(mods, func(i, j int) bool { return mods[i].Name < mods[j].Name })
+	return mods
+}
+
+func main() {
+	root := flag.String("root", "/repo", "repository root")
+	dir := flag.String("dir", "node/modules", "directory (below root) holding the shipped modules")
+	out := flag.String("out", "", "Lean file to write")
+	jsonOut := flag.String("json", "", "JSON file to write (default: <out> with .json)")
+	flag.Parse()
+	if *out == "" {
+		fatal("-out is required")
+	}
+	if *jsonOut == "" {
+		*jsonOut = strings.TrimSuffix(*out, ".lean") + ".json"
+	}
+	mods := collect(*root, *dir, loadOverlay())
 
 	var sb strings.Builder
 	sb.WriteString("import Cell2v.Model.Modules\n")
@@ -606,12 +625,19 @@ func main() {
 
 	js, _ := json.MarshalIndent(map[string]interface{}{"root": *root, "dir": *dir, "modules": mods}, "", " ")
 	writeIfChanged(*jsonOut, append(js, '\n'))
+	failing := 0
 	for _, m := range mods {
 		status := "once"
 		if !m.Once {
 			status = "NOT-ONCE"
+			failing++
 		}
-		fmt.Printf("%-48s %-8s paths=%v %s\n", m.Name, status, m.Paths, strings.Join(m.Notes, "; "))
+		fmt.Printf("%-48s %-8s next-calls per path=%v %s\n", m.Name, status, m.Paths, strings.Join(m.Notes, "; "))
+	}
+	if failing > 0 {
+		// both files are written; the Lean obligation shipped_modules_complete_once will not check
+		fmt.Printf("%d shipped module bodies do not provably call the completion callback exactly once on every path\n", failing)
+		os.Exit(3)
 	}
 }
 
